@@ -9,10 +9,16 @@
    task and front-end callers at manager-lock granularity is some event list.
 
    Modelled as it is NOW in /repo (i.e. with the C03/C05/C09/C12/C18 repairs applied).
+   The dispatch of an incoming message (handle_recv_message: first-byte table, order of the readers, what each arm
+   does, close requests returned or pushed in the array loop, the rules after the loop) is NOT written here: it is the
+   value Gen/ClientDispatchGen.client_dispatch, read from the source by tools/translators/client_dispatch.py on every
+   check (alphabet: Model/ClientDispatch.v) and interpreted by classify_with / classify_frame_with / handle_single_with /
+   array_run_with / run_post / handle_back_with; classify_frame, handle_back, ... are these at client_dispatch.
    Left out: ping/pong, request timeouts (the caller giving up is the event FGiveUp), middleware,
    and the shutdown protocol between the three tasks (Model/ClientShutdown.v); here a fatal error
    just kills the state (everything pending fails with the cause). *)
 From JV Require Import Base.Bytes Base.Dec Base.Utf8 Json.Json Json.JsonSer Json.JsonParse Model.Wire.
+From JV Require Import Model.ClientDispatch Gen.ClientDispatchGen.
 Local Open Scope N_scope.
 
 Definition handle := N.
@@ -100,24 +106,27 @@ Inductive inmsg :=
 | IBad.
 Inductive inframe := FSingle (m : inmsg) | FArray (ms : list inmsg) | FGarbage.
 
-(* order of attempts in handle_recv_message *)
-Definition classify_elem (t : bytes) : inmsg :=
-  match parse_response t with
-  | Some r => IResp r
-  | None =>
-    match parse_sub_notif k_result t with
-    | Some (me, s, p) => ISubNotif me s p
-    | None =>
-      match parse_sub_notif k_error t with
-      | Some (me, s, p) => ISubErr me s p
-      | None =>
-        match parse_notification t with
-        | Some (me, p) => INotif me p
-        | None => IBad
-        end
-      end
-    end
+(* The ORDER of the attempts in handle_recv_message is not written here: it is read from the source
+   (tools/translators/client_dispatch.py -> Gen/ClientDispatchGen.client_dispatch) and interpreted.
+   What one reader yields when it accepts the text: *)
+Definition try_reader (r : reader) (t : bytes) : option inmsg :=
+  match r with
+  | TryResponse => match parse_response t with Some r => Some (IResp r) | None => None end
+  | TrySubResponse => match parse_sub_notif k_result t with Some (me, s, p) => Some (ISubNotif me s p) | None => None end
+  | TrySubError => match parse_sub_notif k_error t with Some (me, s, p) => Some (ISubErr me s p) | None => None end
+  | TryNotification => match parse_notification t with Some (me, p) => Some (INotif me p) | None => None end
   end.
+
+(* the `if let Ok(..) .. else if let Ok(..) ..` chain: the first reader that accepts wins *)
+Fixpoint classify_with (rs : list reader) (t : bytes) : inmsg :=
+  match rs with
+  | [] => IBad
+  | r :: rs' => match try_reader r t with Some x => x | None => classify_with rs' t end
+  end.
+
+(* a whole message (the `{` arm) / one element of an array (the loop of the `[` arm) *)
+Definition classify_single (t : bytes) : inmsg := classify_with (single_readers client_dispatch) t.
+Definition classify_elem (t : bytes) : inmsg := classify_with (elem_readers client_dispatch) t.
 
 (* Vec<&RawValue> from a slice: ws* '[' (value (',' value)* )? ']' ws* eof, spans must be UTF-8 *)
 Fixpoint raw_elems (fuel : nat) (s : bytes) : option (list bytes * bytes) :=
@@ -154,18 +163,23 @@ Definition raw_array (s : bytes) : option (list bytes) :=
   | [] => None
   end.
 
-Definition classify_frame (raw : bytes) : inframe :=
-  match drop_while is_ascii_ws raw with
-  | c :: _ =>
-    if beqb c x7b then FSingle (classify_elem raw)
-    else if beqb c x5b then
+(* `match first_non_whitespace { .. }` over the generated first-byte table *)
+Definition classify_frame_with (d : dispatch) (raw : bytes) : inframe :=
+  let arm := match drop_while is_ascii_ws raw with
+             | c :: _ => first_byte_arm (d_first d) (d_first_default d) c
+             | [] => d_first_default d
+             end in
+  match arm with
+  | BSingle => FSingle (classify_with (single_readers d) raw)
+  | BArray =>
       match raw_array raw with
-      | Some ts => FArray (map classify_elem ts)
+      | Some ts => FArray (map (classify_with (elem_readers d)) ts)
       | None => FGarbage
       end
-    else FGarbage
-  | [] => FGarbage
+  | BError => FGarbage
   end.
+
+Definition classify_frame (raw : bytes) : inframe := classify_frame_with client_dispatch raw.
 
 (* ---------- results seen by front-end callers ---------- *)
 Inductive cerr :=
@@ -506,39 +520,6 @@ Definition single_response (s : st) (r : response) : rres :=
   | Some (KSub _ _ _) | None => RFatal s [] FNotPending
   end.
 
-Definition handle_elem_single (s : st) (x : inmsg) : rres :=
-  match x with
-  | IResp r => single_response s r
-  | ISubNotif _ sid p => ROk (sub_deliver s sid p) []
-  | ISubErr _ sid _ => ROk (sub_close s sid) []
-  | INotif me p => ROk (notif_deliver s me p) []
-  | IBad => RFatal s [] FUnparseable
-  end.
-
-(* the array loop: responses are collected, notifications are processed on the spot *)
-Fixpoint array_loop (s : st) (ms : list inmsg) (acc : list response) (rng : option (N * N)) (got : bool)
-  : (st * list response * option (N * N) * bool) + (st * fatal) :=
-  match ms with
-  | [] => inl (s, acc, rng, got)
-  | x :: ms' =>
-    match x with
-    | IResp r =>
-      match id_as_number (rs_id r) with
-      | None => inr (s, FBadBatchId)
-      | Some n =>
-        let rng' := match rng with
-                    | None => (n, n)
-                    | Some (lo, hi) => (if n <? lo then n else lo, if hi <? n then n else hi)
-                    end in
-        array_loop s ms' (acc ++ [r]) (Some rng') got
-      end
-    | ISubNotif _ sid p => array_loop (sub_deliver s sid p) ms' acc rng true
-    | ISubErr _ sid _ => array_loop (sub_close s sid) ms' acc rng true
-    | INotif me p => array_loop (notif_deliver s me p) ms' acc rng true
-    | IBad => inr (s, FUnparseable)
-    end
-  end.
-
 Definition placeholder : response :=
   {| rs_jsonrpc := true; rs_payload := PError {| e_code := 0%Z; e_message := []; e_data := None |}; rs_id := IdNull |}.
 
@@ -563,19 +544,145 @@ Definition batch_response (s : st) (rs : list response) (lo hi : N) : rres :=
     ROk s1 (complete s h (CBatch filled))
   end.
 
-Definition handle_back (s : st) (fr : inframe) : rres :=
-  match fr with
-  | FGarbage => RFatal s [] FUnparseable
-  | FSingle x => handle_elem_single s x
-  | FArray ms =>
-    match array_loop s ms [] None false with
-    | inr (s', f) => RFatal s' [] f
-    | inl (s', rs, Some (lo, hi), _) =>
-      if hi =? u64_max then RFatal s' [] FNotPending      (* range.end + 1 would overflow *)
-      else batch_response s' rs lo (hi + 1)
-    | inl (s', _, None, got) => if got then ROk s' [] else RFatal s' [] FEmptyBatch
+(* process_subscription_response returns Some(sub_id): the subscription's sink refused the item (receiver dropped,
+   buffer full / lagging) and the subscription is to be closed.  `sub_deliver` has already forwarded the request. *)
+Definition sub_closes (s : st) (sid : subid) (payload : bytes) : bool :=
+  match alookup subid_eqb sid (subs (m s)) with
+  | None => false
+  | Some rid =>
+    match req_lookup rid (m s) with
+    | Some (KSub _ ch _) =>
+      match chan_of s ch with
+      | Some c => match snd (chan_send c payload) with SentOk => false | _ => true end
+      | None => false
+      end
+    | _ => false
     end
   end.
+
+(* ---- interpretation of the generated dispatch (Model/ClientDispatch.v) ---- *)
+Definition reader_of (x : inmsg) : option reader :=
+  match x with
+  | IResp _ => Some TryResponse
+  | ISubNotif _ _ _ => Some TrySubResponse
+  | ISubErr _ _ _ => Some TrySubError
+  | INotif _ _ => Some TryNotification
+  | IBad => None
+  end.
+
+(* a reader paired with an action that cannot take its value (the Rust type checker forbids it; the translator never
+   emits it): the model has no behaviour for it and ends the connection *)
+Definition ill_typed (s : st) : rres := RFatal s [] FUnparseable.
+
+(* the single-message arm.  A close request that comes out of an action has been forwarded by single_response /
+   sub_deliver; returned at once or pushed onto `messages`, the function's value is the same here (nothing follows). *)
+Definition run_single_action (a : action) (s : st) (x : inmsg) : rres :=
+  match a, x with
+  | ASingleResponse _, IResp r => single_response s r
+  | ASubItem _, ISubNotif _ sid p => ROk (sub_deliver s sid p) []
+  | ASubClose, ISubErr _ sid _ => ROk (sub_close s sid) []
+  | ANotification, INotif me p => ROk (notif_deliver s me p) []
+  | _, _ => ill_typed s
+  end.
+
+Definition handle_single_with (d : dispatch) (s : st) (x : inmsg) : rres :=
+  match reader_of x with
+  | None => match d_single_no_reader d with NoReaderFatal => RFatal s [] FUnparseable | NoReaderIgnored => ROk s [] end
+  | Some r =>
+    match single_action r (d_single d) with
+    | Some a => run_single_action a s x
+    | None => ill_typed s
+    end
+  end.
+
+(* the array loop: state of the loop (manager state, `batch`, `range` inclusive, `got_notif`), or the value the
+   function RETURNS from inside the loop (`return Err(..)`, `return Ok(vec![..])`) *)
+Definition loop_acc := (st * list response * option (N * N) * bool)%type.
+
+Definition run_elem_action (a : action) (mark : bool) (s : st) (x : inmsg)
+    (acc : list response) (rng : option (N * N)) (got : bool) : loop_acc + rres :=
+  let got' := if mark then true else got in
+  match a, x with
+  | ABatchCollect chk, IResp r =>
+    match id_as_number (rs_id r) with
+    | None =>
+      match chk with
+      | IdNumberOrFatal => inr (RFatal s [] FBadBatchId)
+      | IdNumberUnchecked => inl (s, acc ++ [r], rng, got')
+      end
+    | Some n =>
+      let rng' := match rng with
+                  | None => (n, n)
+                  | Some (lo, hi) => (if n <? lo then n else lo, if hi <? n then n else hi)
+                  end in
+      inl (s, acc ++ [r], Some rng', got')
+    end
+  | ASubItem cm, ISubNotif _ sid p =>
+    let s1 := sub_deliver s sid p in
+    match cm with
+    | ClosePushed => inl (s1, acc, rng, got')
+    | CloseReturned => if sub_closes s sid p then inr (ROk s1 []) else inl (s1, acc, rng, got')
+    end
+  | ASubClose, ISubErr _ sid _ => inl (sub_close s sid, acc, rng, got')
+  | ANotification, INotif me p => inl (notif_deliver s me p, acc, rng, got')
+  | _, _ => inr (ill_typed s)
+  end.
+
+Definition elem_step (d : dispatch) (s : st) (x : inmsg) (acc : list response) (rng : option (N * N)) (got : bool)
+  : loop_acc + rres :=
+  match reader_of x with
+  | None => match d_elem_no_reader d with
+            | NoReaderFatal => inr (RFatal s [] FUnparseable)
+            | NoReaderIgnored => inl (s, acc, rng, got)
+            end
+  | Some r =>
+    match elem_action r (d_elem d) with
+    | Some (a, mark) => run_elem_action a mark s x acc rng got
+    | None => inr (ill_typed s)
+    end
+  end.
+
+(* responses are collected, notifications are processed on the spot *)
+Fixpoint array_run_with (d : dispatch) (s : st) (ms : list inmsg) (acc : list response) (rng : option (N * N)) (got : bool)
+  : loop_acc + rres :=
+  match ms with
+  | [] => inl (s, acc, rng, got)
+  | x :: ms' =>
+    match elem_step d s x acc rng got with
+    | inl (s1, acc1, rng1, got1) => array_run_with d s1 ms' acc1 rng1 got1
+    | inr r => inr r
+    end
+  end.
+
+(* after the loop: the rules in order, falling through to the function's tail `Ok(messages)` *)
+Fixpoint run_post (rules : list post_rule) (s : st) (rs : list response) (rng : option (N * N)) (got : bool) : rres :=
+  match rules with
+  | [] => ROk s []
+  | PBatchResponse :: rest =>
+    match rng with
+    | Some (lo, hi) =>
+      if hi =? u64_max then RFatal s [] FNotPending      (* range.end.checked_add(1) = None *)
+      else batch_response s rs lo (hi + 1)
+    | None => run_post rest s rs rng got
+    end
+  | PEmptyIsFatal :: rest => if got then run_post rest s rs rng got else RFatal s [] FEmptyBatch
+  end.
+
+Definition handle_back_with (d : dispatch) (s : st) (fr : inframe) : rres :=
+  match fr with
+  | FGarbage => RFatal s [] FUnparseable
+  | FSingle x => handle_single_with d s x
+  | FArray ms =>
+    match array_run_with d s ms [] None false with
+    | inr r => r
+    | inl (s', rs, rng, got) => run_post (d_post d) s' rs rng got
+    end
+  end.
+
+Definition handle_elem_single (s : st) (x : inmsg) : rres := handle_single_with client_dispatch s x.
+Definition array_run (s : st) (ms : list inmsg) (acc : list response) (rng : option (N * N)) (got : bool) : loop_acc + rres :=
+  array_run_with client_dispatch s ms acc rng got.
+Definition handle_back (s : st) (fr : inframe) : rres := handle_back_with client_dispatch s fr.
 
 (* shutdown: every waiter fails with the cause, every stream ends *)
 Definition waiters_of_kind (k : id * kind) : list handle :=
